@@ -581,6 +581,20 @@ func genC01(tier string, seed uint64) {
 			}
 		}
 	}
+	// many clients at once on the same service object: the protocol-specific requests, 64 connections each
+	for _, svc := range []string{"docker", "elasticsearch", "eos", "ethereum", "cwmp", "http", "ipp", "redis", "memcached", "ldap", "smtp", "ftp"} {
+		ins := c01Inputs(svc, r)
+		if len(ins) > 12 {
+			ins = ins[:12]
+		}
+		for _, in := range ins {
+			for round := 0; round < 2; round++ {
+				if !runProc(svc, 64, "w", in) {
+					break
+				}
+			}
+		}
+	}
 	// ssh sessions: channel requests with well-formed, short and odd payloads
 	str := func(x string) string { return hx(append([]byte{0, 0, 0, byte(len(x))}, x...)) }
 	for _, items := range [][]string{
@@ -698,7 +712,16 @@ func c01Inputs(svc string, r *Rng) [][]byte {
 	case "adb":
 		cn := append([]byte("CNXN\x00\x00\x00\x01\x00\x10\x00\x00\x07\x00\x00\x00\x32\x02\x00\x00\xbc\xb1\xa7\xb1"), []byte("host::\x00")...)
 		ins = append(ins, append(append([]byte{}, cn...), []byte("OPEN")...), append(append([]byte{}, cn...), []byte("WRTE\x01\x00")...), []byte("CNX"))
-	case "elasticsearch", "docker", "eos", "ethereum", "cwmp":
+	case "docker":
+		get := func(p string) []byte { return []byte("GET " + p + " HTTP/1.1\r\nHost: d\r\n\r\n") }
+		post := func(p, body string) []byte {
+			return []byte(fmt.Sprintf("POST %s HTTP/1.1\r\nHost: d\r\nContent-Type: application/json\r\nContent-Length: %d\r\n\r\n%s", p, len(body), body))
+		}
+		ins = append(ins, get("/info"), get("/version"), get("/v1.40/containers/json"), get("/v1.40/images/json"), get("/_ping"),
+			post("/v1.40/containers/create", `{"Image":"alpine","Cmd":["sh"]}`), post("/v1.40/containers/abc/start", ""), post("/v1.40/containers/abc/wait", ""),
+			post("/v1.40/containers/abc/attach?stream=1", ""), post("/v1.40/containers/abc/kill", ""), post("/v1.40/images/create?fromImage=alpine&tag=3", ""), post("/v1.40/images/create", ""))
+		fallthrough
+	case "elasticsearch", "eos", "ethereum", "cwmp":
 		ins = append(ins, []byte("POST / HTTP/1.1\r\nHost: h\r\nContent-Length: 2\r\n\r\n{}"), []byte("POST / HTTP/1.1\r\nHost: h\r\nContent-Length: 40\r\n\r\n{\"jsonrpc\":\"2.0\",\"method\":1,\"params\":{}}"), []byte("POST /v1/chain/get_info HTTP/1.1\r\nHost: h\r\nContent-Length: 4\r\n\r\nnull"),
 			[]byte("GET /containers/json?all=1 HTTP/1.1\r\nHost: h\r\n\r\n"), []byte("POST / HTTP/1.1\r\nHost: h\r\nContent-Length: 36\r\n\r\n{\"method\":\"eth_getBlockByNumber\",\"params\":[]}"), []byte("POST / HTTP/1.1\r\nHost: h\r\nContent-Length: 30\r\n\r\n[{\"method\":[],\"id\":{\"a\":null}}]"),
 			[]byte("BREW / HTCPCP/1.0\r\n\r\n"), []byte("GET http://[::1]:namedport/ HTTP/1.1\r\n\r\n"))
